@@ -781,7 +781,11 @@ class ExprMixin:
             if conds:
                 st.qctx.append(((), z3.And(*conds)))
             try:
-                kv = as_v(self.eval(node.key))
+                kval = self.eval(node.key)
+                if self.tainted(kval) and not st.spec_mode:
+                    # inserting a program object as a dict key hashes it: user code unless its class is exactly a builtin hashable
+                    self.effect("hash", self.exact_builtin_hashable(kval), node)
+                kv = as_v(kval)
                 vval = self.eval(node.value)
                 vv = as_v(vval)
             finally:
